@@ -228,6 +228,143 @@ theorem refStep_split {S : List τ} {acc : Part τ × List (Nat × Nat)} {aid : 
       · have : ¬ acc.1.next = j := fun e => hj2 e.symm
         cases hl : alookup j acc.1.blocks <;> simp [hj, hj2, hl, this, get]
 
+/-! ### the whole `for` loop of `refine` -/
+
+/-- How the partition `r` and the returned pairs `new` arise from `p` after the blocks with
+ids in `hit` were processed. -/
+structure RefRel (S : List τ) (hit : List Nat) (p r : Part τ) (new : List (Nat × Nat)) : Prop where
+  ids_eq : r.ids = p.ids ++ new.map Prod.fst
+  next_eq : r.next = p.next + new.length
+  ids_nodup : r.ids.Nodup
+  ids_lt : ∀ i ∈ r.ids, i < r.next
+  new_spec : ∀ pr ∈ new, p.next ≤ pr.1 ∧ pr.2 ∈ hit ∧ NotAll S (p.get pr.2) ∧
+    r.get pr.1 = (p.get pr.2).filter (fun x => decide (x ∈ S))
+  new_complete : ∀ o ∈ hit, NotAll S (p.get o) → ∃ n, (n, o) ∈ new
+  fst_unique : ∀ pr ∈ new, ∀ pr' ∈ new, pr.2 = pr'.2 → pr.1 = pr'.1
+  get_split : ∀ j ∈ p.ids, j ∈ hit → NotAll S (p.get j) →
+    r.get j = (p.get j).filter (fun x => decide (x ∉ S))
+  get_keep : ∀ j ∈ p.ids, ¬ (j ∈ hit ∧ NotAll S (p.get j)) → r.get j = p.get j
+
+theorem refFold_spec (S : List τ) : ∀ (hit : List Nat) (acc : Part τ × List (Nat × Nat)),
+    hit.Nodup → (∀ i ∈ hit, i ∈ acc.1.ids) → acc.1.ids.Nodup → (∀ i ∈ acc.1.ids, i < acc.1.next) →
+    ∃ new : List (Nat × Nat),
+      (hit.foldl (refStep S) acc).2 = acc.2 ++ new ∧
+      RefRel S hit acc.1 (hit.foldl (refStep S) acc).1 new := by
+  intro hit
+  induction hit with
+  | nil =>
+    intro acc _ _ hnd hlt
+    refine ⟨[], by simp, ?_⟩
+    constructor <;> simp_all
+  | cons a t ih =>
+    intro acc hhnd hsub hnd hlt
+    have hat : a ∉ t := (List.nodup_cons.mp hhnd).1
+    have htnd : t.Nodup := (List.nodup_cons.mp hhnd).2
+    have ha : a ∈ acc.1.ids := hsub a (by simp)
+    have htsub : ∀ i ∈ t, i ∈ acc.1.ids := fun i hi => hsub i (by simp [hi])
+    simp only [List.foldl_cons]
+    by_cases hs : NotAll S (acc.1.get a)
+    · have hfresh : acc.1.next ∉ acc.1.ids := fun h => Nat.lt_irrefl _ (hlt _ h)
+      obtain ⟨e1, e2, e3, e4⟩ := refStep_split hs ha hfresh
+      generalize refStep S acc a = acc₁ at e1 e2 e3 e4 ⊢
+      have hnd₁ : acc₁.1.ids.Nodup := by
+        rw [e1, List.nodup_append]
+        refine ⟨hnd, by simp, ?_⟩
+        intro x hx y hy
+        simp only [List.mem_singleton] at hy
+        subst hy
+        exact fun e => hfresh (e ▸ hx)
+      have hlt₁ : ∀ i ∈ acc₁.1.ids, i < acc₁.1.next := by
+        intro i hi
+        rw [e1] at hi; rw [e2]
+        rcases List.mem_append.mp hi with h | h
+        · exact Nat.lt_succ_of_lt (hlt i h)
+        · simp only [List.mem_singleton] at h; omega
+      have hsub₁ : ∀ i ∈ t, i ∈ acc₁.1.ids := fun i hi => by
+        rw [e1]; exact List.mem_append_left _ (htsub i hi)
+      obtain ⟨new, hn2, hr⟩ := ih acc₁ htnd hsub₁ hnd₁ hlt₁
+      generalize List.foldl (refStep S) acc₁ t = r at hn2 hr
+      -- blocks with ids in `t` (or any old id other than `a`) are untouched by the step
+      have hget₁ : ∀ j ∈ acc.1.ids, j ≠ a → acc₁.1.get j = acc.1.get j := by
+        intro j hj hja
+        have : j ≠ acc.1.next := fun e => hfresh (e ▸ hj)
+        rw [e4]; simp [hja, this]
+      have hgeta : acc₁.1.get a = (acc.1.get a).filter (fun x => decide (x ∉ S)) := by
+        rw [e4]; simp
+      have hgetn : acc₁.1.get acc.1.next = (acc.1.get a).filter (fun x => decide (x ∈ S)) := by
+        have : acc.1.next ≠ a := fun e => hfresh (e ▸ ha)
+        rw [e4]; simp [this]
+      have hnt : acc.1.next ∉ t := fun h => hfresh (htsub _ h)
+      refine ⟨(acc.1.next, a) :: new, by rw [hn2, e3]; simp, ?_⟩
+      constructor
+      · rw [hr.ids_eq, e1]; simp
+      · rw [hr.next_eq, e2]; simp; omega
+      · exact hr.ids_nodup
+      · exact hr.ids_lt
+      · intro pr hpr
+        rcases List.mem_cons.mp hpr with h | h
+        · subst h
+          refine ⟨Nat.le_refl _, by simp, hs, ?_⟩
+          have : acc.1.next ∈ acc₁.1.ids := by rw [e1]; simp
+          rw [hr.get_keep _ this (fun h => hnt h.1), hgetn]
+        · obtain ⟨h1, h2, h3, h4⟩ := hr.new_spec pr h
+          have hne : pr.2 ≠ a := fun e => hat (e ▸ h2)
+          have hg := hget₁ pr.2 (htsub _ h2) hne
+          refine ⟨by omega, by simp [h2], hg ▸ h3, by rw [h4, hg]⟩
+      · intro o ho hno
+        rcases List.mem_cons.mp ho with h | h
+        · subst h; exact ⟨acc.1.next, by simp⟩
+        · have hne : o ≠ a := fun e => hat (e ▸ h)
+          have hg := hget₁ o (htsub _ h) hne
+          obtain ⟨n, hn⟩ := hr.new_complete o h (hg ▸ hno)
+          exact ⟨n, by simp [hn]⟩
+      · intro pr hpr pr' hpr' e
+        rcases List.mem_cons.mp hpr with h | h <;> rcases List.mem_cons.mp hpr' with h' | h'
+        · subst h h'; rfl
+        · subst h
+          exact absurd (hr.new_spec pr' h').2.1 (by simp only at e; rw [← e]; exact hat)
+        · subst h'
+          exact absurd (hr.new_spec pr h).2.1 (by simp only at e; rw [e]; exact hat)
+        · exact hr.fst_unique pr h pr' h' e
+      · intro j hj hjh hno
+        have hj₁ : j ∈ acc₁.1.ids := by rw [e1]; exact List.mem_append_left _ hj
+        rcases List.mem_cons.mp hjh with h | h
+        · subst h
+          rw [hr.get_keep _ hj₁ (fun h => hat h.1), hgeta]
+        · have hne : j ≠ a := fun e => hat (e ▸ h)
+          have hg := hget₁ j hj hne
+          rw [hr.get_split j hj₁ h (hg ▸ hno), hg]
+      · intro j hj hno
+        have hj₁ : j ∈ acc₁.1.ids := by rw [e1]; exact List.mem_append_left _ hj
+        have hne : j ≠ a := fun e => hno ⟨by simp [e], e ▸ hs⟩
+        have hg := hget₁ j hj hne
+        rw [hr.get_keep j hj₁ (fun h => hno ⟨by simp [h.1], hg ▸ h.2⟩), hg]
+    · rw [refStep_nosplit hs]
+      obtain ⟨new, hn2, hr⟩ := ih acc htnd htsub hnd hlt
+      generalize List.foldl (refStep S) acc t = r at hn2 hr
+      refine ⟨new, hn2, ?_⟩
+      constructor
+      · exact hr.ids_eq
+      · exact hr.next_eq
+      · exact hr.ids_nodup
+      · exact hr.ids_lt
+      · intro pr hpr
+        obtain ⟨h1, h2, h3, h4⟩ := hr.new_spec pr hpr
+        exact ⟨h1, by simp [h2], h3, h4⟩
+      · intro o ho hno
+        rcases List.mem_cons.mp ho with h | h
+        · subst h; exact absurd hno hs
+        · exact hr.new_complete o h hno
+      · exact hr.fst_unique
+      · intro j hj hjh hno
+        rcases List.mem_cons.mp hjh with h | h
+        · subst h; exact absurd hno hs
+        · exact hr.get_split j hj h hno
+      · intro j hj hno
+        apply hr.get_keep j hj
+        rintro ⟨h1, h2⟩
+        exact hno ⟨by simp [h1], h2⟩
+
 end Part
 end DFA
 end AV
